@@ -514,6 +514,30 @@ def _rc_coord_replace():
         wrappers.CoordMatcher.replace = orig
 
 
+@contextlib.contextmanager
+def _rc_coord_no_quality():
+    """In-process repair for the CoordMatcher root cause in its general form: the coordinated score depends on how
+    many terms match the document, and every quality optimisation *below* the CoordMatcher (a DisjunctionMax that
+    skips one side past the document in skip_to_quality, a replace() that sheds the weaker side) keeps the child's
+    score but lowers that count.  The repair switches the optimisations off for this matcher: no block quality,
+    structural replace only."""
+    from whoosh.matching import wrappers
+    orig_r, orig_s = wrappers.CoordMatcher.replace, wrappers.CoordMatcher.supports_block_quality
+
+    def replace(self, minquality=0):
+        r = self.child.replace(0)
+        if r is not self.child:
+            return self._replacement(r)
+        return self
+    wrappers.CoordMatcher.replace = replace
+    wrappers.CoordMatcher.supports_block_quality = lambda self: False
+    try:
+        yield
+    finally:
+        wrappers.CoordMatcher.replace = orig_r
+        wrappers.CoordMatcher.supports_block_quality = orig_s
+
+
 def _has_coord_over_dismax(c, wname, q, ex):
     """Precondition of the CoordMatcher.replace root cause: an Or with a coordination scale that has a
     DisjunctionMax below it."""
@@ -567,6 +591,8 @@ ROOT_CAUSES = [
     ("ArrayUnionMatcher:document-with-score<=0-is-no-match", _rc_array_union_positive, _has_nonpositive_hit),
     ("CoordMatcher.replace:child-replace-keeps-scores-but-sheds-matching-terms(DisjunctionMax-below-Or(scale))",
      _rc_coord_replace, _has_coord_over_dismax),
+    ("CoordMatcher:quality-pruning-below-lowers-the-matching-term-count(DisjunctionMax-below-Or(scale))",
+     _rc_coord_no_quality, _has_coord_over_dismax),
 ]
 
 
